@@ -573,6 +573,8 @@ func genStream(r *hx.Rng, tier string, w io.Writer, adversarial bool) {
 		// a trusted header that does not decode, an empty message
 		fmt.Fprintf(w, "p2plib trusted=ffff tkeyok=0 %s\n", blobArgsLib(c.hdr[c.top]))
 		lib(c.hdr[c.top-1], nil)
+		// the real sync service restarted on a store whose head is hours / weeks old (stale.go)
+		genStale(r, tier, w, c)
 		// the FIRST header of the P2P store (no trusted hash): whatever a peer answers for the initial height
 		for h := c.ih; h <= c.ih+1; h++ {
 			vs := c.p2pVariants(r, h)
